@@ -1,18 +1,23 @@
-(** * ident/Local.v - the local shortcut (C12, finding F12a)
+(** * ident/Local.v - the local shortcut (C12; finding F12a, repaired in /repo by 1a6ebc01)
 
     When the parent (or repository) of a CA lives in the same Krill instance, no CMS is built:
 
-    - [send_rfc6492_and_validate_response] (src/server/ca/manager.rs:2356-2377): if the service
+    - [send_rfc6492_and_validate_response] (src/server/ca/manager.rs:2358-2401): if the service
       URI of the CA's stored parent contact is "<service_uri>rfc6492/<parent>", the request message
       is handed directly to [rfc6492_process_request] of that parent. The message was built with
       sender = [server_info.child_handle] (manager.rs:1828, 1939, 2330): the child handle found in
       the CALLER'S OWN parent contact, i.e. in the RFC 8183 parent response the caller's
-      administrator stored with [ca_parent_add_or_update]. No key of the caller is compared with
-      the ID certificate registered for that child. The user agent is "local-child".
-    - [send_rfc8181_and_validate_response] (manager.rs:2910-2930): if the repository's service URI
+      administrator stored with [ca_parent_add_or_update]. The user agent is "local-child".
+      REPAIRED TREE (2372-2393): before processing, the child named as sender is looked up at the
+      local parent ([get_child], unknown child = error) and the key identifier of its registered
+      ID certificate is compared with [signing_key], the calling CA's own ID key; on a mismatch an
+      error is returned and nothing is processed or stored: [local6492].
+      ORIGINALLY PINNED TREE: no key of the caller was compared with anything: [local6492_pinned],
+      kept with its refutation (F12a) as a regression witness.
+    - [send_rfc8181_and_validate_response] (manager.rs:2934-2954): if the repository's service URI
       starts with the instance's service URI, [rfc8181_message] is called for the publisher whose
-      handle equals the CALLER'S CA HANDLE ([ca_handle.convert()], 2925). No key is compared
-      either; the reply is not signed.
+      handle equals the CALLER'S CA HANDLE ([ca_handle.convert()]). No key is compared; the reply
+      is not signed (candidate F12b).
 
     Definitions only. *)
 From KV Require Import base.Tac ident.Msg ident.Updown.
@@ -21,19 +26,28 @@ Open Scope N_scope.
 (** The calling CA as far as the shortcut looks at it. *)
 Record caller := mkCaller {
   cl_handle : handle;           (* its CA handle *)
-  cl_id : key;                  (* its ID key (CertAuth::id) - never consulted by the shortcut *)
+  cl_id : key;                  (* its ID key (CertAuth::id): the [signing_key] of the exchange *)
   cl_contact_child : handle }.  (* ParentServerInfo::child_handle of its stored parent contact *)
 
 Definition local_ua : N := 0.   (* "local-child" *)
 
-(** Local RFC 6492 exchange with the parent [st]. *)
-Definition local6492 (st : parent) (cl : caller) (r : req) : parent * outcome reply :=
+(** The originally pinned local RFC 6492 exchange with the parent [st]: no key involved. *)
+Definition local6492_pinned (st : parent) (cl : caller) (r : req) : parent * outcome reply :=
   let c := cl_contact_child cl in
   match process st local_ua c r with
   | (st', RsErrored) => (st', Errored c)
   | (st', RsFailed) => (st', Failed c)
   | (st', RsPanicked) => (st', Panicked)
   | (st', RsServed rep) => (st', Served c (mkMsg (p_handle st) c rep 0 true))   (* unsigned: signed_by is meaningless *)
+  end.
+
+(** The local RFC 6492 exchange of the repaired tree: the ID key registered at the parent for the
+    child named in the caller's contact must be the caller's own ID key. *)
+Definition local6492 (st : parent) (cl : caller) (r : req) : parent * outcome reply :=
+  match aget (cl_contact_child cl) (p_children st) with
+  | None => (st, Refused)                                         (* get_child(..)?: CaChildUnknown *)
+  | Some ch => if ch_id ch =? cl_id cl then local6492_pinned st cl r
+               else (st, Refused)                                 (* "not its registered ID key" *)
   end.
 
 (** Local RFC 8181 exchange: served as the publisher named like the calling CA. *)
@@ -54,10 +68,3 @@ Definition contact_handle_matches_registration (st : parent) (cl : caller) : Pro
 Definition publisher_handle_matches_registration (rp : repo) (cl : caller) : Prop :=
   forall pb, aget (cl_handle cl) (r_pubs rp) = Some pb -> pb_id pb = cl_id cl.
 
-(** What a fix along the lines of DESIGN.md section 5 (C12) would look like: compare the caller's ID key with
-    the key registered for the claimed child before processing. *)
-Definition local6492_checked (st : parent) (cl : caller) (r : req) : parent * outcome reply :=
-  match aget (cl_contact_child cl) (p_children st) with
-  | None => (st, Refused)
-  | Some ch => if ch_id ch =? cl_id cl then local6492 st cl r else (st, Refused)
-  end.
